@@ -220,6 +220,10 @@ func runC28(p *core.Prog, r *core.Report) {
 	r5 := r.Rule("C28.R5", "the eACL header source reports 'object headers incomplete' (which makes an object-filter record unmatched and the request follow the basic ACL) only for GET/HEAD requests and for responses, whose handlers evaluate the table again with the real header; for PUT, DELETE, RANGE and SEARCH requests missing headers are an error, never 'incomplete'", 2)
 	incompleteHeadersOnlyWhereRechecked(p, r, r5)
 	r.Explain += " (R5) in the eACL header source every write of the 'headers incomplete' flag lies outside the cases of the request kinds that are served on an unmatched table without a second look (PUT, DELETE, RANGE, RANGEHASH, SEARCH): only GET/HEAD requests and responses, whose handlers run the table again on the header actually read, may leave object filters undecided."
+	// ---- R6 a PUT never reaches the table without object headers
+	r6 := r.Rule("C28.R6", "for the heading part of a PUT the eACL header source always attaches object headers (the received object's own, its attached parent's, or the parent kept by the first part) before it reports success: no shape of the split header leaves the object-filter records with nothing to match while the headers count as complete", 1)
+	putAlwaysHasObjectHeaders(p, r, r6)
+	r.Explain += " (R6) in the eACL header source, from the point where a PUT request's heading part was recognised no path reaches a successful return without a write of the object headers; a header shape that attaches none (a split header referring to no original header) would let any client pass a DENY PUT record with an object filter by adding a dummy split field."
 	r4 := r.Rule("C28.R4", "classify returns a privileged role only on evidence obtained for this request: owner ⇐ author==container owner; inner ring ⇐ key found in the list fetched now; container ⇐ InContainerInLastTwoEpochs(this container, this key)==(true,nil) asked now (directly or through a helper whose every 'true' passes it)", 4)
 	cfn := p.Func("(pkg/services/object/acl/v2.senderClassifier).classify")
 	if cfn == nil {
@@ -606,5 +610,63 @@ func delegationChainAuthenticated(p *core.Prog, r *core.Report, r7 *core.RuleH) 
 	}
 	if nInst == 0 {
 		r.Fatalf("%s: no instantiation of AuthenticateTokenV2 found", r7.ID())
+	}
+}
+
+func putAlwaysHasObjectHeaders(p *core.Prog, r *core.Report, h *core.RuleH) {
+	fn := p.Func("(*pkg/services/object/acl/eacl/v2.cfg).readObjectHeaders")
+	if fn == nil {
+		r.Fatalf("C28.R6: readObjectHeaders not found")
+		return
+	}
+	var starts []*ssa.BasicBlock
+	for _, b := range fn.Blocks {
+		for _, in := range b.Instrs {
+			ta, ok := in.(*ssa.TypeAssert)
+			if !ok || !ta.CommaOk || !strings.HasSuffix(ta.AssertedType.String(), "PutRequest_Body_Init_") || ta.Referrers() == nil {
+				continue
+			}
+			for _, ref := range *ta.Referrers() {
+				ex, isEx := ref.(*ssa.Extract)
+				if !isEx || ex.Index != 1 || ex.Referrers() == nil {
+					continue
+				}
+				for _, u := range *ex.Referrers() {
+					if iff, isIf := u.(*ssa.If); isIf {
+						starts = append(starts, iff.Block().Succs[0])
+					}
+				}
+			}
+		}
+	}
+	if len(starts) == 0 {
+		r.Fatalf("C28.R6: the PUT heading-part case was not found in readObjectHeaders")
+		return
+	}
+	stop := map[*ssa.BasicBlock]bool{}
+	var okRets []*ssa.BasicBlock
+	for _, b := range fn.Blocks {
+		for _, in := range b.Instrs {
+			if st, ok := in.(*ssa.Store); ok {
+				if fa, isFA := st.Addr.(*ssa.FieldAddr); isFA && strings.HasSuffix(core.FieldAddrName(fa), ".objectHeaders") {
+					stop[b] = true
+				}
+			}
+		}
+		if ret, ok := b.Instrs[len(b.Instrs)-1].(*ssa.Return); ok && len(ret.Results) == 1 {
+			if c, isC := ret.Results[0].(*ssa.Const); isC && c.IsNil() {
+				okRets = append(okRets, b)
+			}
+		}
+	}
+	for i, st := range starts {
+		bare := ""
+		for _, rb := range okRets {
+			if !stop[st] && (st == rb || reachesAvoiding(st, rb, stop, nil)) {
+				bare = p.InstrPos(rb.Instrs[len(rb.Instrs)-1])
+			}
+		}
+		h.Check(bare == "", fmt.Sprintf("%s#put-heading-part@%d", core.FuncName(fn), i+1), p.InstrPos(st.Instrs[0]), "every successful path attaches object headers",
+			"a PUT's heading part can reach the successful return ("+bare+") without any object headers attached (and counted as complete): records with object filters cannot match and the request follows the basic ACL")
 	}
 }
